@@ -10,6 +10,8 @@ pub trait El: Clone + Eq + Hash + Debug + Default + 'static {
     const NAME: &'static str;
     const ZST: bool = false;
     const TRACKED: bool = false;
+    /// Object identity is observable (`obj()` differs between equal elements) although nothing is ledgered.
+    const IDENT: bool = false;
     /// Make an element with logical id `id` in role key (`true`) or value.
     fn mk(id: u32, is_key: bool) -> Self;
     /// Logical id (checks liveness for tracked elements).
@@ -126,6 +128,7 @@ pub fn ledger_created() -> u64 {
 }
 pub fn ledger_reset() {
     zd_reset();
+    POD_SERIAL.with(|c| c.set(0));
     harness(|| {
         STATE.with(|s| s.borrow_mut().clear());
         NLIVE.with(|c| c.set(0));
@@ -220,6 +223,7 @@ impl Default for Tk {
 impl El for Tk {
     const NAME: &'static str = "tk";
     const TRACKED: bool = true;
+    const IDENT: bool = true;
     fn mk(id: u32, is_key: bool) -> Tk {
         Tk::fresh(id, is_key)
     }
@@ -381,5 +385,69 @@ impl El for Big {
     fn set(&mut self, id: u32) {
         self.check("write");
         *self = Big::make(id)
+    }
+}
+
+// ---------------------------------------------------------------------------------------------
+// Plain data with an identity: no drop glue (`needs_drop` is false, the type is `Copy`-like), `Eq` and
+// `Hash` look at the id only, and a serial number tells equal elements apart - which of two equal keys
+// a collection keeps or hands back is observable without any destructor being involved.
+
+thread_local! {
+    static POD_SERIAL: Cell<u64> = const { Cell::new(0) };
+}
+fn pod_serial() -> u64 {
+    POD_SERIAL.with(|c| {
+        c.set(c.get() + 1);
+        c.get()
+    })
+}
+pub struct Pod {
+    id: u32,
+    serial: u64,
+}
+impl Clone for Pod {
+    fn clone(&self) -> Pod {
+        tick(Cb::CloneK);
+        Pod { id: self.id, serial: pod_serial() }
+    }
+}
+impl PartialEq for Pod {
+    fn eq(&self, o: &Pod) -> bool {
+        tick(Cb::Eq);
+        self.id == o.id
+    }
+}
+impl Eq for Pod {}
+impl Hash for Pod {
+    fn hash<H: Hasher>(&self, h: &mut H) {
+        h.write_u32(self.id)
+    }
+}
+impl Debug for Pod {
+    fn fmt(&self, f: &mut std::fmt::Formatter<'_>) -> std::fmt::Result {
+        write!(f, "{}", self.id)
+    }
+}
+impl Default for Pod {
+    fn default() -> Pod {
+        Pod { id: 0, serial: pod_serial() }
+    }
+}
+impl El for Pod {
+    const NAME: &'static str = "pod";
+    const IDENT: bool = true;
+    fn mk(id: u32, _k: bool) -> Pod {
+        Pod { id, serial: pod_serial() }
+    }
+    #[inline]
+    fn id(&self) -> u32 {
+        self.id
+    }
+    fn obj(&self) -> u64 {
+        self.serial
+    }
+    fn set(&mut self, id: u32) {
+        self.id = id
     }
 }
